@@ -616,7 +616,8 @@ def gen_case(rng, tier, kind=None):
     m = case["max_time"]
     handles = []          # per handle: {"kind": "list"|"param"|"failed", "mt": int, "stale": bool}
     maybe_frozen = set()
-    nops = rng.randint(4, 9 if tier == "quick" else 14)
+    nops = rng.randint(5, 11 if tier == "quick" else 16)
+    present: list = []
     nodes = node_paths(case)
 
     def new_obj(force_mt=None, allow_bad=True):
@@ -667,6 +668,9 @@ def gen_case(rng, tier, kind=None):
             k = rng.choice(usable)
         else:
             k = new_obj(force_mt=m)
+            if handles[k]["kind"] != "failed" and handles[k]["mt"] != m:
+                # an instance whose own max_time differs from the model's is outside the statement (not generated)
+                return {"list": gen_weights(rng, m + 1)}, "list"
         return {"obj": k}, handles[k]["kind"]
 
     while len(ops) < nops:
@@ -693,10 +697,12 @@ def gen_case(rng, tier, kind=None):
                         handles[k]["stale"] = True
             continue
         path = rng.choice(nodes) if rng.random() < 0.45 else []
-        if r < 0.5:
+        if r < 0.45 or not present:
             t = rng.choice(TS)
             a, knd = gen_darg()
             ops.append(["set_dist", path, t, a])
+            if t not in present:
+                present.append(t)
             if knd == "list" or (knd == "failed"):
                 maybe_frozen.add(t)
         elif r < 0.7:
@@ -709,7 +715,7 @@ def gen_case(rng, tier, kind=None):
             for _ in range(rng.choice([0, 1, 1, 2])):
                 name = rng.choice(["p", "a", "b", "zz"])
                 kw[name] = gen_val(rng, name if name in GOOD else None)
-            ops.append(["cell_set_params", path, rng.choice(TS), gen_args(rng, 3), kw])
+            ops.append(["cell_set_params", path, rng.choice(present if rng.random() < 0.85 else TS), gen_args(rng, 3), kw])
         elif r < 0.86:
             v = rng.choice([0, 1, 2, 3, 4] if tier == "thorough" else [0, 1, 2, 3]) if rng.random() < 0.9 else -1
             ops.append(["set_max_time", [], v])
@@ -725,7 +731,7 @@ def gen_case(rng, tier, kind=None):
         elif r < 0.9:
             ops.append(["get_max_time", path])
         elif r < 0.95:
-            ops.append(["del_dist", path, rng.choice(TS)])
+            ops.append(["del_dist", path, rng.choice(present if rng.random() < 0.7 else TS)])
         elif r < 0.98:
             items = []
             for t in rng.sample(TS, rng.randint(0, 2)):
@@ -797,6 +803,11 @@ def drop_op(case, i):
 def candidates(case):
     out = []
     n = len(case["ops"])
+    for cut in (n // 2, n - 1, n - 2):
+        if 0 < cut < n:
+            c = copy.deepcopy(case)
+            c["ops"] = c["ops"][:cut]
+            out.append(c)
     for i in reversed(range(n)):
         c = drop_op(case, i)
         if c is not None and c["ops"]:
@@ -842,7 +853,7 @@ def run(ctx: Ctx, a_ok: bool):
     ctx.cone = ["DistModel.dist_new", "DistModel.cell_set_params (set_kw)", "DistModel.cell_set_maxt", "DistModel.cell_pmf",
                 "DistModel.each_tree / leaf_* (Composite API)", "DistModel.descend_params / unflatten_and_split",
                 "DistModel.comp_get_distribution_params (flatten2)", "Dist.fam_weights / normalize / mk_frozen"]
-    ctx.rule = ("random histories (4-9 operations quick, 4-14 thorough) on standalone Distribution objects, Unilateral, "
+    ctx.rule = ("random histories (5-11 operations quick, 5-16 thorough) on standalone Distribution objects, Unilateral, "
                 "Bilateral and Midline (with/without central, unknown); values from k/16, k/4, 0.0, None and the invalid "
                 "p=1.5/-0.25, a=-1/128, b=0/-0.5; non-trivial iff at least one set_params / set_distribution_params call "
                 "in the history succeeded and changed an observed keyword value or pmf")
